@@ -5,7 +5,11 @@ From Verif Require Export Base.Prelude Base.StrOrd Base.Graph Model.Pipe Model.S
 Inductive case :=
 | CSub (p : pipeline) (I : list str) (S : list str)
     (* pipeline.subpipeline(inputs=set(I), output_names=set(S)): the functions of the result *)
-| CMap (p : pipeline) (inputs : alist) (S : option (list str)) (auto : bool).
+| CMap (p : pipeline) (inputs : alist) (S : option (list str)) (auto : bool)
+| CMap2 (p : pipeline) (in1 : alist) (S1 : option (list str)) (a1 : bool)
+        (in2 : alist) (S2 : option (list str)) (a2 : bool).
+    (* pipeline.map(in1, F, output_names=S1, auto_subpipeline=a1) into a fresh run folder F, then
+       pipeline.map(in2, F, output_names=S2, auto_subpipeline=a2, cleanup=False) into the SAME folder *)
     (* pipeline.map(inputs, output_names=S, auto_subpipeline=auto, storage="dict", parallel=False) *)
 
 (* Pipeline([...]) adds the functions one at a time and validates after every add; the consistency of defaults
@@ -26,6 +30,12 @@ Definition run (c : case) : sx :=
       else bad_case
   | CMap p inputs Sq auto =>
       if constructible p then sx_of_result sx_map_result (map_run body pick p inputs Sq auto) else bad_case
+  | CMap2 p in1 S1 a1 in2 S2 a2 =>
+      if constructible p then
+        let '(r1, r2) := map_twice body pick p in1 S1 a1 in2 S2 a2 in
+        SL [sx_of_result sx_map_result r1;
+            match r2 with Some r => sx_of_result sx_map_result r | None => SNone end]
+      else bad_case
   end.
 
 (* ------------------------------------------------------------------ the executable statement *)
@@ -76,6 +86,26 @@ Definition judge (p : pipeline) (I S : list str) (ok_exact ok_loose : sx -> bool
 Definition all_leaf_outputs (p : pipeline) : list str :=
   flat_map (fun f => if mem_str (fid f) (leaf_fids p) then outs f else []) p.
 
+(* every value that a run returns is the value the full pipeline computes with the provided names substituted *)
+Definition values_ok (p : pipeline) (inputs : alist) (obs : sx) : bool :=
+  match un_ok obs with
+  | Some (SL [d; _]) =>
+      match un_alist d with
+      | Some res => forallb (fun kv => negb (is_output p (fst kv))
+                                       || match eval_top body pick p inputs (fst kv) with
+                                          | Ok v => str_eqb v (snd kv)
+                                          | Err _ => false
+                                          end) res
+      | None => false
+      end
+  | _ => sx_is_err obs
+  end.
+Definition requested_present (Sq : option (list str)) (obs : sx) : bool :=
+  match Sq, un_ok obs with
+  | Some l, Some (SL [d; _]) => match un_alist d with Some res => forallb (ahas res) l | None => false end
+  | _, _ => true
+  end.
+
 Definition spec_ok (c : case) (obs : sx) : bool :=
   match c with
   | CSub p Iq Sq =>
@@ -105,4 +135,18 @@ Definition spec_ok (c : case) (obs : sx) : bool :=
               (* the plain map: all outputs of the pipeline *)
               judge p Iq (all_outputs p) (map_ok p inputs (all_outputs p) true) (map_ok p inputs (all_outputs p) false) obs
         end
+  | CMap2 p in1 S1 a1 in2 S2 a2 =>
+      (* the second request into the used folder is either refused, or it returns - for every requested output -
+         the value of the full pipeline with ITS provided values substituted (never a stale value of the first run);
+         the first run is only required to return right values when it succeeds *)
+      if negb (constructible p) then true
+      else match obs with
+           | SL [o1; o2] =>
+               values_ok p in1 o1
+               && (match o2 with
+                   | SL [SS _] => true                                   (* no second run (the first one failed) *)
+                   | _ => values_ok p in2 o2 && requested_present S2 o2
+                   end)
+           | _ => false
+           end
   end.
